@@ -17,4 +17,4 @@ one() {
   rm -rf $S
 }
 export -f one; export BIN
-ls -d $D/C*/[rst]* 2>/dev/null | sort | xargs -P $J -I{} bash -c 'one {}'
+ls -d $D/C*/[rstm]* 2>/dev/null | sort | xargs -P $J -I{} bash -c 'one {}'
